@@ -153,3 +153,56 @@ Proof. exact C14_skel_c15.crash_isolation_parts_translated. Qed.
 Print Assumptions C15_write_order_translated.
 Print Assumptions C15_isolation_translated.
 Print Assumptions C15_isolation_any_parts_translated.
+
+(* ================= phase 4: a FAILED write (I/O error returned, the object used further) =================
+   Scenario: chunks c and d exist; a write of c that needs new sectors fails in its HEADER write; chunk e is
+   then written through the same object.  C15_failed_header_write_before_fix_refuted: for the translated body
+   WITHOUT the repair (fix db6a924 in /repo) the file then names sector 2 for both c and e and, after a reopen,
+   rewriting c makes e read back c's bytes - a chunk OTHER than the interrupted one is damaged.
+   C15_failed_header_write_fixed: with the translated body as it is now the old sector stays reserved, e is
+   placed elsewhere, and every chunk but c reads back its bytes, also after the reopen and the rewrite of c. *)
+From GoMC Require Proofs.C14_skel_fail.
+
+Theorem C15_failed_header_write_before_fix_refuted :
+  exists s, C14_skel_fail.sc_after C14_skel_fail.WriteSector_before_fix = Some s /\
+    C14_skel_fail.sc_disk_runs s = ((2, 1), (2, 1)) /\
+    read_sector s 2 0 = ROk (C14_skel_fail.fill 5 100) /\
+    C14_skel_fail.sc_e_after_reopen s = ROk (C14_skel_fail.fill 9 100).
+Proof. exact C14_skel_fail.failed_header_write_before_fix_refuted. Qed.
+
+Theorem C15_failed_header_write_fixed :
+  exists s, C14_skel_fail.sc_after C14gen.WriteSector = Some s /\
+    C14_skel_fail.sc_disk_runs s = ((2, 1), (6, 1)) /\
+    read_sector s 2 0 = ROk (C14_skel_fail.fill 5 100) /\ read_sector s 1 0 = ROk (C14_skel_fail.fill 3 100) /\
+    C14_skel_fail.sc_e_after_reopen s = ROk (C14_skel_fail.fill 5 100).
+Proof. exact C14_skel_fail.failed_header_write_fixed. Qed.
+
+Print Assumptions C15_failed_header_write_before_fix_refuted.
+Print Assumptions C15_failed_header_write_fixed.
+
+(* the general statement (Model.C14.write_sector_fail = WriteSector of the repaired code on a medium whose fa-th
+   I/O call fails, a failing write of more than 4 bytes storing sh bytes first): for EVERY state representing a
+   map, every failing call, every short-write length - all OTHER chunks read and exist exactly as before through
+   the same Region object, and the file re-opens with all of them intact *)
+From GoMC Require Proofs.C15_fail.
+Theorem C15_failed_write_isolation : forall fa sh s m x z d now sF wsF rF,
+  R s m -> x < 32 -> z < 32 -> write_sector_fail fa sh s x z d now = (sF, wsF, rF) ->
+  (forall x' z', x' < 32 -> z' < 32 -> (x', z') <> (x, z) ->
+     read_sector sF x' z' = spec_read m (idx x' z') /\ exist_sector sF x' z' = is_some (m (idx x' z'))) /\
+  (exists sl, load (img sF) = LOk sl /\ others_intact sl m (idx x z)).
+Proof. exact C15_fail.failed_write_isolation. Qed.
+
+(* the hand model of the failing write IS the interpretation of the translated WriteSector on the failing
+   medium - by computation, for every failing call index 0..8 on the allocating path (two short-write lengths) *)
+Theorem C15_failing_write_model_is_interpretation :
+  Forall (C14_skel_fail.tie_at C14_skel_fail.sc_state0 0 0 (C14_skel_fail.fill 4 4200) 8 0) (seq 0 9) /\
+  Forall (C14_skel_fail.tie_at C14_skel_fail.sc_state0 0 0 (C14_skel_fail.fill 4 4200) 8 100) (seq 0 9) /\
+  Forall (C14_skel_fail.tie_at C14_skel_fail.sc_state0 1 0 (C14_skel_fail.fill 6 90) 8 3) (seq 0 9) /\
+  Forall (C14_skel_fail.tie_at C14_skel_fail.sc_state0 7 7 (C14_skel_fail.fill 6 4093) 8 5) (seq 0 9).
+Proof.
+  exact (conj C14_skel_fail.fail_tie_alloc_0 (conj C14_skel_fail.fail_tie_alloc_100
+        (conj C14_skel_fail.fail_tie_inplace_3 C14_skel_fail.fail_tie_fresh_5))).
+Qed.
+
+Print Assumptions C15_failed_write_isolation.
+Print Assumptions C15_failing_write_model_is_interpretation.
